@@ -532,6 +532,11 @@ class C07Join(Monitor):
             return
         unreach = env.orc.unreachable_joins()
         msgs = [e["message"] for e in env.c.errors]
+        if not env.orc.failed:
+            for j, n in env.orc.fired.items():
+                ran = len([a for a in env.started if a.task == j])
+                if n > ran:
+                    self.fail(env, "join-never-ran", "C07 the barrier of %s was satisfied by %s but the join never ran; the workflow ended %s with errors %s" % (j, sorted(env.orc.arrived[j]), env.status(), msgs), join=j, status=env.status())
         if unreach and not env.orc.failed:
             count(env, "c07_unreachable")
             if env.status() != S.FAILED or not any("UnreachableJoinError" in m for m in msgs):
